@@ -5,6 +5,7 @@
 #include <cds/details/defs.h>
 #include <cds/algo/atomic.h>
 #include <cds/algo/flat_combining/defs.h>
+#define constexpr_if if      /* cds/compiler/defs.h (declaration rule) */
 #ifndef VX_DQ_CAP
 #define VX_DQ_CAP 8
 #endif
@@ -20,14 +21,22 @@ struct vx_deque {
     void pop_front() { for ( unsigned i = 1; i < n; ++i ) m[i - 1] = m[i]; --n; }
     void pop_back() { --n; }
 };
+struct shell_fcdeque;
 struct shell_fcdeque {
     typedef int value_type;
 #include <fc_operation.inc>
 #include <fc_record.inc>
     typedef fc_record* vx_iterator;
-    struct vx_stat { void onCollide() { vx_collide_stat(); } };
+    struct vx_stat { void onCollide() { vx_collide_stat(); } void onPushFront() {} void onPushBack() {} void onPopFront( bool ) {} void onPopBack( bool ) {} };
     struct vx_kernel {
-        fc_record* base; vx_stat st;
+        fc_record* base; vx_stat st; fc_record* cur; unsigned n;
+        // the kernel as its callers see it (unit fc_kernel checks these guarantees on the real kernel): the caller's own publication record is
+        // re-used from call to call (its fields hold whatever the last operation left); combine() hands the request to exactly one pass
+        // that calls fc_apply on it; batch_combine() first gives the container the pending batch (fc_process), then fc_apply for what is left
+        fc_record* acquire_record() { return cur; }
+        void release_record( fc_record* pRec ) { pRec->nRequest.store( cds::algo::flat_combining::req_EmptyRecord, atomics::memory_order_release ); }
+        void combine( unsigned op, fc_record* pRec, shell_fcdeque& owner );
+        void batch_combine( unsigned op, fc_record* pRec, shell_fcdeque& owner );
         void operation_done( fc_record& rec ) { rec.nRequest.store( cds::algo::flat_combining::req_Response, atomics::memory_order_release ); vx_done( (unsigned)( &rec - base )); }
         vx_stat& internal_statistics() { return st; }
     };
@@ -36,7 +45,21 @@ struct shell_fcdeque {
 #include <fc_process.inc>
 #include <collide.inc>
 #include <collide_move.inc>
+    static bool c_bEliminationEnabled;      // a compile-time constant of the real class; both values are explored
+#include <push_front.inc>
+#include <push_back.inc>
+#include <pop_front.inc>
+#include <pop_back.inc>
 };
+bool shell_fcdeque::c_bEliminationEnabled;
+void shell_fcdeque::vx_kernel::combine( unsigned op, fc_record* pRec, shell_fcdeque& owner ) {
+    pRec->nRequest.store( op, atomics::memory_order_release ); owner.fc_apply( pRec ); operation_done( *pRec );
+}
+void shell_fcdeque::vx_kernel::batch_combine( unsigned op, fc_record* pRec, shell_fcdeque& owner ) {
+    pRec->nRequest.store( op, atomics::memory_order_release );
+    owner.fc_process( base, base + n );
+    for ( unsigned i = 0; i < n; ++i ) if ( base[i].op() >= cds::algo::flat_combining::req_Operation ) { owner.fc_apply( &base[i] ); operation_done( base[i] ); }
+}
 #ifndef VX_N
 #define VX_N 3
 #endif
@@ -54,4 +77,10 @@ bool w_rec_empty(unsigned i) { return g_rec[i].bEmpty; }
 bool w_rec_done(unsigned i) { return g_rec[i].is_done(); }
 void w_fc_process(unsigned n) { g_d.m_FlatCombining.base = g_rec; g_d.fc_process(g_rec, g_rec + n); }
 void w_fc_apply(unsigned i) { g_d.fc_apply(&g_rec[i]); }
+// public entry points on the caller's re-used record 0 (stale fields), alone in the batch
+void w_stale_rec(bool bEmpty, int* junk) { g_rec[0].nRequest.store(cds::algo::flat_combining::req_EmptyRecord, atomics::memory_order_relaxed); g_rec[0].bEmpty = bEmpty; g_rec[0].pValPop = junk; g_d.m_FlatCombining.base = g_rec; g_d.m_FlatCombining.cur = &g_rec[0]; g_d.m_FlatCombining.n = 1; }
+void w_elimination(bool on) { shell_fcdeque::c_bEliminationEnabled = on; }
+bool w_push_front(const int* v) { return g_d.push_front(*v); }   bool w_push_back(const int* v) { return g_d.push_back(*v); }
+bool w_pop_front(int* v) { return g_d.pop_front(*v); }            bool w_pop_back(int* v) { return g_d.pop_back(*v); }
+unsigned w_rec_req(unsigned i) { return g_rec[i].nRequest.load(atomics::memory_order_relaxed); }
 }
